@@ -762,6 +762,26 @@ func (c *cenv) Lookup(name string, old bool) (SV, bool) {
 		return SV{T: t, Ty: gi.ValTy, Opt: gi.Opt, Arr: gi.Arr, Sort: gi.Sort}, true
 	}
 	switch name {
+	case "$hookFailed":
+		if st.hookFailed {
+			return SV{T: "true", Sort: "Bool"}, true
+		}
+		return SV{T: "false", Sort: "Bool"}, true
+	case "$hookCalls":
+		return SV{T: fmt.Sprint(len(st.hookCalls)), Sort: "Int"}, true
+	case "$hookCfg":
+		if n := len(st.hookCalls); n > 0 {
+			return SV{T: st.hookCalls[n-1].Cfg.T, Ty: st.hookCalls[n-1].Cfg.Ty}, true
+		}
+		if tp := x.L.SSA[repoPrefix+"/x/ophost/types"]; tp != nil && tp.Type("BridgeConfig") != nil {
+			return x.toSV(st, x.freshTV("nohook_cfg", tp.Type("BridgeConfig").Type(), nil))
+		}
+		return SV{}, false
+	case "$hookBridge":
+		if n := len(st.hookCalls); n > 0 {
+			return SV{T: st.hookCalls[n-1].Bridge, Sort: "Int"}, true
+		}
+		return SV{T: "(- 1)", Sort: "Int"}, true
 	case "$evOpaque":
 		if x.store(st, 0).EvOpaque {
 			return SV{T: "true", Sort: "Bool"}, true
